@@ -15,6 +15,10 @@ import copy
 import math
 
 import numpy as np
+import warnings
+
+# a tap of power 0 is -inf dB: the library's linear2dB warns (and is right to return -inf)
+warnings.filterwarnings("ignore", message="divide by zero encountered in log10")
 
 from ..core import pool_map
 
@@ -40,6 +44,8 @@ def _rand_profile(rng, ts):
         if frac.min() > 1e-3:
             break
     p = rng.uniform(-20, 0, size=n)
+    if n > 1 and rng.rand() < 0.15:
+        p[rng.randint(n)] = -np.inf          # a tap of power 0 is a valid tap
     perm = rng.permutation(n) if rng.rand() < 0.3 else np.arange(n)
     try:
         return fading.TdlChannelProfile(p[perm], (d * ts)[perm], "random")
@@ -245,7 +251,16 @@ def run_scenario(sc):
                             c_.set_pathloss(None)
                     pl = None
                 else:
+                    # ordinary values, and the valid extremes: exactly 0 (blocked link, falsy in Python), exactly 1,
+                    # an identity matrix (no cross interference)
                     pl = rng.uniform(0.01, 1.0, size=(kr, kt))
+                    r_ = rng.rand()
+                    if r_ < 0.3:
+                        pl = np.eye(kr, kt) if kr * kt > 1 else np.zeros((1, 1))
+                    elif r_ < 0.6:
+                        msk = rng.rand(kr, kt)
+                        pl[msk < 0.3] = 0.0
+                        pl[msk > 0.85] = 1.0
                     for c_ in (ch, chA, chB):
                         c_.set_pathloss(pl.copy() if mu else float(pl[0, 0]))
             elif k == "Gen":
